@@ -37,7 +37,7 @@ pub fn budget(prop: &str, tier: &str, samples: &Samples) -> Budget {
             // + huge-table images (> 0xff00 sections, the three ways of naming the shstrtab)
             let extra = crate::sweep::sample_cases(samples)
                 + crate::sweep::sweep_cases()
-                + if thorough { 24 } else { 6 };
+                + if thorough { 48 } else { 12 };
             Budget { runs: n + extra, exhaustive: 0, images: 0, base_runs: n }
         }
         #[cfg(feature = "stream")]
@@ -45,7 +45,7 @@ pub fn budget(prop: &str, tier: &str, samples: &Samples) -> Budget {
             let n = sc(if thorough { 60_000_000 } else { 2_000_000 });
             let extra = crate::sweep::sample_cases(samples)
                 + crate::sweep::sweep_cases()
-                + if thorough { crate::sweep::HUGE_CASES } else { 2 };
+                + if thorough { crate::sweep::HUGE_CASES } else { 6 };
             Budget { runs: n + extra, exhaustive: 0, images: 0, base_runs: n }
         }
         #[cfg(feature = "stream")]
